@@ -293,6 +293,64 @@ func c08(r *core.Report, p *core.Prog, thorough bool) {
 	}
 	sort.Slice(all, func(i, j int) bool { return all[i].named.String() < all[j].named.String() })
 	r.Floor("C08.versions", "versioned entity types", len(all), 5)
+	// the tag written with the encoding names the struct that was encoded: InitVersion
+	// (called by the wrapper before every MarshalMsg) stamps GetVersion's constant
+	// unconditionally — a conditional stamp keeps a tag decoded from client input
+	r.Rule("C08.version-stamp", "for every versioned entity with a Version field: InitVersion stores, on every path, the constant that GetVersion returns into the receiver's Version")
+	nStamp := 0
+	for _, vt := range all {
+		hasField := false
+		for i := 0; i < vt.st.NumFields(); i++ {
+			if vt.st.Field(i).Name() == "Version" {
+				hasField = true
+			}
+		}
+		if !hasField {
+			continue
+		}
+		tn := "(*" + vt.named.Obj().Pkg().Path() + "." + vt.named.Obj().Name() + ")."
+		iv, gv := p.Func(tn+"InitVersion"), p.Func(tn+"GetVersion")
+		if iv == nil || gv == nil {
+			r.Unresolved("C08.version-stamp", tn+"InitVersion/GetVersion")
+			continue
+		}
+		nStamp++
+		want := ""
+		for _, ret := range core.Returns(gv) {
+			if c, ok := core.ConstString(core.ResultValue(ret, 0)); ok {
+				want = c
+			}
+		}
+		var stamp *ssa.Store
+		for _, b := range iv.Blocks {
+			for _, in := range b.Instrs {
+				st, ok := in.(*ssa.Store)
+				if !ok {
+					continue
+				}
+				fa, ok := st.Addr.(*ssa.FieldAddr)
+				if !ok || core.FieldOf(fa) == nil || core.FieldOf(fa).Name() != "Version" || fa.X != ssa.Value(iv.Params[0]) {
+					continue
+				}
+				if c, ok := core.ConstString(st.Val); ok && c == want && want != "" {
+					stamp = st
+				}
+			}
+		}
+		okS := stamp != nil
+		d := "stores " + want
+		if okS {
+			path, _, found := core.PathQuery{Fn: iv, Barrier: func(in ssa.Instruction) bool { return in == ssa.Instruction(stamp) }, EdgeOK: core.FeasibleEdge,
+				Target: func(in ssa.Instruction) bool { _, isRet := in.(*ssa.Return); return isRet }}.Find()
+			if found {
+				okS, d = false, "a path returns without stamping (a tag taken from decoded input survives): "+p.PathString(path)
+			}
+		} else {
+			d = "no store of GetVersion's constant " + want + " into Version"
+		}
+		r.Check(okS, "C08.version-stamp", "InitVersion:"+vt.named.Obj().Name(), p.Pos(iv.Pos()), d)
+	}
+	r.Floor("C08.version-stamp", "versioned entities with a Version field", nStamp, 4)
 	for _, vt := range all {
 		name := vt.named.Obj().Name()
 		if vt.pred == nil {
